@@ -5,6 +5,7 @@ import (
 	"encoding/binary"
 	"fmt"
 	"runtime"
+	"sort"
 	"strings"
 	"sync"
 	"time"
@@ -81,10 +82,12 @@ type inst struct {
 	twin     bool          // C07 twin instance
 	shadow   bool          // shadow instance (C02 oracle): emissions recorded separately, never delivered
 
-	outbox   []outMsg
-	ensures  []ensureRec
-	disconns int
-	seamCnt  [nSeamKinds]int
+	outbox        []outMsg
+	ensures       []ensureRec
+	disconns      int
+	seamCnt       [nSeamKinds]int
+	prevBatchVote bool     // the main loop's previous send was a Broadcast of a vote
+	lastMain      seamKind // last seam call of the main loop; seamTimer <=> it sits in demux.next's select (idle)
 
 	svc  *agreement.Service
 	clk  *simClock
@@ -114,14 +117,33 @@ type ensureRec struct {
 
 // enter returns false if the call must be treated as a no-op (zombie); it never returns for a
 // dead instance until cleanup.
-func (in *inst) enter(k seamKind) bool {
+func (in *inst) enter(k seamKind) bool { return in.enterT(k, true) }
+
+// enterSend: Broadcast of a vote is how broadcastVotesAction re-sends its dumped votes - a batch emitted in
+// Go map order. A crash trigger may stop the node BEFORE such a batch or AFTER it (both instants are
+// schedule-independent), never inside it: which votes had left would depend on the map iteration order.
+func (in *inst) enterSend(batchVote bool) bool {
+	in.mu.Lock()
+	mid := batchVote && in.prevBatchVote
+	in.prevBatchVote = batchVote
+	in.mu.Unlock()
+	return in.enterT(seamSend, !mid)
+}
+
+func (in *inst) enterT(k seamKind, mayTrigger bool) bool {
 	in.mu.Lock()
 	if in.zombie {
 		in.mu.Unlock()
 		return false
 	}
 	in.seamCnt[k]++
-	if !in.dead && !in.crashReq && in.trigLeft > 0 && in.trigMask&(1<<uint(k)) != 0 {
+	if k == seamEnsure || k == seamWaitDemux || k == seamTimer {
+		in.prevBatchVote = false
+	}
+	if k == seamSend || k == seamEnsure || k == seamWaitDemux || k == seamTimer {
+		in.lastMain = k // all four are called by the service's main (demux) loop goroutine only
+	}
+	if mayTrigger && !in.dead && !in.crashReq && in.trigLeft > 0 && in.trigMask&(1<<uint(k)) != 0 {
 		in.trigLeft--
 		if in.trigLeft == 0 {
 			// Only THIS goroutine stops here; the service's other goroutines run on until they block
@@ -163,6 +185,12 @@ type simLedger struct {
 	// genesisSlow: even the durability notification of the round preceding the first simulated round
 	// is delayed until the first flush action (a node whose ledger is still syncing when it starts)
 	genesisSlow bool
+	// gates: the durability notifications the persistence loop waits for are handed out one at a time by
+	// the scheduler, each at a quiescent instant (Sim.quiesce). A state is therefore written to the crash
+	// DB while nothing else in the node is running: the real-time race between the SQLite commit and the
+	// node's other goroutines cannot decide the order of events (it did, and made crash-trigger runs
+	// depend on machine load: determinism self-test under load).
+	gates []chan struct{}
 }
 
 func newSimLedger(s *Sim, n *Node) *simLedger {
@@ -198,6 +226,10 @@ func (l ledgerView) Wait(r basics.Round) chan struct{} {
 	if l.nextRound > r {
 		if (r <= l.flushed && !(r == 0 && l.genesisSlow)) || l.in.shadow {
 			c := make(chan struct{})
+			if k == seamWaitPersist && !l.in.shadow {
+				l.gates = append(l.gates, c)
+				return c
+			}
 			close(c)
 			return c
 		}
@@ -224,14 +256,37 @@ func (l *simLedger) flush() int {
 	n := 0
 	l.genesisSlow = false
 	l.flushed = l.nextRound - 1
-	for r, c := range l.slow {
+	var rs []basics.Round
+	for r := range l.slow {
 		if r <= l.flushed {
-			close(c)
-			delete(l.slow, r)
-			n++
+			rs = append(rs, r)
 		}
 	}
+	sort.Slice(rs, func(i, j int) bool { return rs[i] < rs[j] })
+	for _, r := range rs {
+		l.gates = append(l.gates, l.slow[r]) // opened by Sim.quiesce, one at a time
+		delete(l.slow, r)
+		n++
+	}
 	return n
+}
+
+// openGate lets the oldest waiting persist proceed; false if none waits.
+func (l *simLedger) openGate() bool {
+	l.mu.Lock()
+	defer l.mu.Unlock()
+	if len(l.gates) == 0 {
+		return false
+	}
+	close(l.gates[0])
+	l.gates = l.gates[1:]
+	return true
+}
+
+func (l *simLedger) dropGates() {
+	l.mu.Lock()
+	l.gates = nil
+	l.mu.Unlock()
 }
 
 func (l *simLedger) pendingFlush() bool {
@@ -432,7 +487,7 @@ func (n *simNet) push(m outMsg) {
 }
 
 func (n *simNet) Broadcast(t protocol.Tag, data []byte) error {
-	if !n.in.enter(seamSend) {
+	if !n.in.enterSend(t == protocol.AgreementVoteTag) {
 		return nil
 	}
 	n.push(outMsg{tag: t, data: append([]byte(nil), data...), except: -1, bcast: true})
@@ -440,7 +495,7 @@ func (n *simNet) Broadcast(t protocol.Tag, data []byte) error {
 }
 
 func (n *simNet) Relay(h agreement.MessageHandle, t protocol.Tag, data []byte) error {
-	if !n.in.enter(seamSend) {
+	if !n.in.enterSend(false) {
 		return nil
 	}
 	ex := -1
@@ -452,7 +507,7 @@ func (n *simNet) Relay(h agreement.MessageHandle, t protocol.Tag, data []byte) e
 }
 
 func (n *simNet) Disconnect(h agreement.MessageHandle) {
-	if !n.in.enter(seamSend) {
+	if !n.in.enterSend(false) {
 		return
 	}
 	n.in.mu.Lock()
